@@ -193,7 +193,7 @@ func cmdCheck(args []string) {
 	closure = append(closure, P.globalInventory(*prop)...)
 
 	// bounded stand-ins (labelled, never counted as discharged)
-	bounded := runBounded(*repo, *prop)
+	bounded := runBounded(*repo, *prop, *tier)
 
 	// pinned obligation names
 	pinned := loadPinned(filepath.Join(verifRoot, "obligations", *prop+".txt"))
